@@ -3100,7 +3100,8 @@ class GeneralGate(Gate):
     """
 
     def __init__(self, mat, nwires: int):
-        mat = np.asarray(mat)
+        # own copy, such that later in-place changes of the caller's array do not alter the gate
+        mat = np.array(mat)
         if mat.shape != (2**nwires, 2**nwires):
             raise ValueError(
                 f"`mat` must be a {2**nwires} x {2**nwires} matrix")
@@ -3120,7 +3121,8 @@ class GeneralGate(Gate):
         """
         Return the matrix representation of the gate.
         """
-        return self.mat
+        # a copy, such that in-place changes by the caller do not alter the gate
+        return self.mat.copy()
 
     @property
     def num_wires(self):
